@@ -21,15 +21,20 @@ OFFSETS = (Fraction(0), Fraction(1, 2), Fraction(-1, 4))
 EPS = 1e-9
 
 
-def answers(engine, beats):
-    """Every time_at answer (beat x tag), bpm_at and hittable per beat."""
+def answers(engine, beats, reverse=False):
+    """Every time_at answer (beat x tag), bpm_at and hittable per beat; optionally asked in the opposite order."""
     out = {}
-    for b in beats:
+    tags = list(reversed(TC.TAGS)) if reverse else TC.TAGS
+    for b in (reversed(beats) if reverse else beats):
         ib = TC.to_beat(b)
-        for tag in TC.TAGS:
+        if reverse:
+            out[(b, "hit")] = engine.hittable(ib)
+            out[(b, "bpm")] = engine.bpm_at(ib)
+        for tag in tags:
             out[(b, int(tag))] = float(engine.time_at(ib, tag))
-        out[(b, "bpm")] = engine.bpm_at(ib)
-        out[(b, "hit")] = engine.hittable(ib)
+        if not reverse:
+            out[(b, "bpm")] = engine.bpm_at(ib)
+            out[(b, "hit")] = engine.hittable(ib)
     return out
 
 
@@ -48,6 +53,18 @@ def check_timeline(tl, beats, exact, with_meta=True, free_points=()):
     except Exception as e:
         fail("building the engine or querying it raised", "answers", f"{type(e).__name__}: {e}")
         return fails
+    # 0. the same questions asked in the opposite order (later tags first, later beats first) on the same
+    #    engine get the same answers: an answer must not depend on what was asked before
+    try:
+        back = answers(engine, beats, reverse=True)
+        diff = [k for k in ans if back[k] != ans[k]]
+        if diff:
+            k = diff[0]
+            fail("an answer depends on the order in which the engine was queried", ans[k], back[k], query=[str(k[0]), str(k[1])])
+    except core.WatchdogTimeout:
+        raise
+    except Exception as e:
+        fail("querying the engine in reverse order raised", "answers", f"{type(e).__name__}: {e}")
     # 1. time_at against the exact model
     for b in beats:
         for tag in T.TAGS:
@@ -124,6 +141,17 @@ def check_timeline(tl, beats, exact, with_meta=True, free_points=()):
         if bad:
             fail("inserting a BPM change that repeats the BPM in force changes an answer", bad[1], bad[2], query=[str(bad[0][0]), str(bad[0][1])], inserted_at=str(fp))
             break
+    # 5. engines are independent objects: after other engines were built and used, the first one still answers the same
+    try:
+        later = answers(engine, beats[:: max(1, len(beats) // 8)])
+        diff = [k for k in later if later[k] != ans[k]]
+        if diff:
+            k = diff[0]
+            fail("an engine's answers changed after another engine was built", ans[k], later[k], query=[str(k[0]), str(k[1])])
+    except core.WatchdogTimeout:
+        raise
+    except Exception as e:
+        fail("re-querying the first engine after building others raised", "answers", f"{type(e).__name__}: {e}")
     return fails
 
 
